@@ -145,7 +145,13 @@ class Extractor:
             return
         if isinstance(st, (ast.For, ast.While)):
             sub_ex = self
-            hdr = norm(self.sym(st.iter if isinstance(st, ast.For) else st.test, env))
+            if isinstance(st, ast.For):
+                # the iterable is evaluated once, before the first pass: buffer reads in it (for _ in range(pdu.get())) are
+                # wire items in front of the loop
+                items = list(items)
+                hdr = norm(self._expr_with_reads(st.iter, env, items))
+            else:
+                hdr = norm(self.sym(st.test, env))
             loop_env = dict(env)
             if isinstance(st, ast.For):
                 for n in ast.walk(st.target):
